@@ -52,6 +52,9 @@ empty-body                   200 with an empty body and cacheable headers
 dir-removed / dir-is-file    cache directory removed / replaced by a regular file (file backend)
 dev-full                     per-key symlink to /dev/full: the write fails at byte 0 (file backend)
 fsize                        RLIMIT_FSIZE = Param % of the body: the write fails part-way (file backend)
+evict-remove-fails           the file of the eviction's first candidate cannot be removed (it was replaced by a
+                             non-empty directory), cache over its limit: the eviction triggered by the next store fails
+                             for that candidate (file backend)
 */
 
 func setFsize(n uint64) (restore func()) {
@@ -89,6 +92,8 @@ var sub = ev.Register("cache-faults",
 			opts.Cleanup = time.Millisecond
 		case "empty-body":
 			v.Len = 0
+		case "evict-remove-fails":
+			opts.MaxSize = int64(2 * max(f.BodyLen, 1000))
 		}
 		opts.DefaultMaxAge = lifetime
 		site.Set("/f", "f", v)
@@ -210,6 +215,26 @@ var sub = ev.Register("cache-faults",
 		case "fsize":
 			n := uint64(f.BodyLen * f.Param / 100)
 			restore = append(restore, setFsize(n))
+		case "evict-remove-fails":
+			// learn the key of the oldest filler, make its file unremovable, and let the next store evict
+			verifhook.Set(func(name string, args ...string) {
+				if name == "proxy.beforeRespond" && len(args) > 0 {
+					kmu.Lock()
+					keyHex = args[0]
+					kmu.Unlock()
+				}
+			})
+			get("victim", "/w0")
+			verifhook.Set(nil)
+			victim := filepath.Join(env.CacheDir, keyHex)
+			if os.Remove(victim) == nil && os.MkdirAll(filepath.Join(victim, "sub"), 0o755) == nil {
+				fired = true
+			}
+			time.Sleep(3 * time.Millisecond)
+			for i := 1; i < 4; i++ {
+				get(fmt.Sprintf("fill%d", i), fmt.Sprintf("/w%d", i))
+			}
+			restore = append(restore, func() { os.RemoveAll(victim) })
 		}
 		type out struct {
 			r   *px.Resp
@@ -324,9 +349,14 @@ var kinds = []struct {
 	{"dir-is-file", []string{"file"}, []int{0}},
 	{"dev-full", []string{"file"}, []int{0}},
 	{"fsize", []string{"file"}, []int{0, 1, 50, 99}},
+	{"evict-remove-fails", []string{"file"}, []int{0}},
 }
 
 func TestCacheFaults(t *testing.T) {
+	// a request that is never answered is what this check looks for: 6 s is the watchdog for exchanges that take milliseconds
+	oldTimeout := px.Timeout
+	px.Timeout = 6 * time.Second
+	defer func() { px.Timeout = oldTimeout }()
 	histories := 3
 	if ev.Thorough() {
 		histories = 60
